@@ -128,7 +128,20 @@ func ReclaimOracle(multiplier float64) clustermc.Oracle {
 			before := clone(alloc)
 			j := i
 			victimQueues := map[string]bool{}
+			jobNet := map[string]Quant{} // victim job -> what it loses in this statement (evicted minus re-placed pods)
 			for j < len(ds) && ((ds[j].Kind == "evict" && ds[j].Action == "reclaim" && ds[j].Preemptor == pre) || ((ds[j].Kind == "pipeline" || ds[j].Kind == "bind") && ds[j].AfterAction == "reclaim")) {
+				if vj := podJob[ds[j].Pod]; vj != nil && !ds[j].Failed && vj.Name != pre {
+					if p := t.Pre.Pod(ds[j].Pod); p != nil {
+						c := jobNet[vj.Name]
+						if node, ok := counted[ds[j].Pod]; ok && ds[j].Kind == "evict" {
+							q := PodQuant(t.Pre, p, node)
+							jobNet[vj.Name] = Quant{c.GPU + q.GPU, c.CPU + q.CPU, c.Mem + q.Mem}
+						} else if _, ok := counted[ds[j].Pod]; !ok && ds[j].Kind != "evict" {
+							q := PodQuant(t.Pre, p, ds[j].Node)
+							jobNet[vj.Name] = Quant{c.GPU - q.GPU, c.CPU - q.CPU, c.Mem - q.Mem}
+						}
+					}
+				}
 				if ds[j].Kind == "evict" {
 					if vj := podJob[ds[j].Pod]; vj != nil {
 						victimQueues[vj.Queue] = true
@@ -194,6 +207,30 @@ func ReclaimOracle(multiplier float64) clustermc.Oracle {
 					out = append(out, engine.Violation{Property: "C07", Key: "C07/reclaimed-from-queue-within-deserved",
 						Message: fmt.Sprintf("reclaim for %s (queue %s) reduced queue %s from %+v to %+v although it was within its deserved quota in every resource", pre, r.Queue, lv, before[lv], alloc[lv])})
 				}
+				// (1') the same sentence, victim job by victim job: the reclaim takes the victims of one
+				// statement one workload after the other; whatever the order, each one must come out of a
+				// queue that is at that moment above its deserved quota in some resource. Violation only
+				// if NO order of the victim workloads satisfies that.
+				var losses []Quant
+				for _, jn := range sortedJobNames(jobNet) {
+					vj := jobs[jn]
+					if vj == nil {
+						continue
+					}
+					if _, l := leveled(qs, r.Queue, vj.Queue); l != lv {
+						continue
+					}
+					if n := jobNet[jn]; n.GPU > eps || n.CPU > eps || n.Mem > eps {
+						losses = append(losses, n)
+					}
+				}
+				if len(losses) >= 2 && len(losses) <= 6 {
+					t.Stats["reclaim_statements_with_several_victim_workloads_in_one_queue_subtree"]++
+					if !existsLegalOrder(before[lv], losses, func(res string) float64 { return queueQuota(qv, res) }) {
+						out = append(out, engine.Violation{Property: "C07", Key: "C07/reclaimed-from-queue-within-deserved victims=several-workloads",
+							Message: fmt.Sprintf("reclaim for %s (queue %s) took %d workloads out of %s (allocation %+v -> %+v, deserved gpu %.2f): in every order of these victims one of them is taken while %s is already within its deserved quota in every resource", pre, r.Queue, len(losses), lv, before[lv], alloc[lv], queueQuota(qv, "gpu"), lv)})
+					}
+				}
 				// (4) saturation: at every level from the diverging one upward... the statement speaks of
 				// ancestors of the reclaimer and the sibling it took from: that is exactly the leveled pair.
 				for _, res := range QuantResources {
@@ -227,4 +264,41 @@ func ReclaimOracle(multiplier float64) clustermc.Oracle {
 		_ = multiplier
 		return out
 	}
+}
+
+func sortedJobNames(m map[string]Quant) []string {
+	out := []string{}
+	for k := range m {
+		out = append(out, k)
+	}
+	sort.Strings(out)
+	return out
+}
+
+// existsLegalOrder: is there an order of the losses such that before each one the allocation is NOT
+// within the quota in every resource (quota < 0 = unlimited: never "above").
+func existsLegalOrder(start Quant, losses []Quant, quota func(res string) float64) bool {
+	used := make([]bool, len(losses))
+	var rec func(cur Quant, left int) bool
+	rec = func(cur Quant, left int) bool {
+		if left == 0 {
+			return true
+		}
+		if within(cur, quota) {
+			return false
+		}
+		for i := range losses {
+			if used[i] {
+				continue
+			}
+			used[i] = true
+			ok := rec(Quant{cur.GPU - losses[i].GPU, cur.CPU - losses[i].CPU, cur.Mem - losses[i].Mem}, left-1)
+			used[i] = false
+			if ok {
+				return true
+			}
+		}
+		return false
+	}
+	return rec(start, len(losses))
 }
